@@ -33,6 +33,10 @@ func main() {
 		os.Exit(2)
 	}
 	rn := newRunner(*prop, *tier, *seed)
+	if *out != "-" && *out != "" {
+		rn.recordLast = *out + ".lastcase"
+		os.Remove(rn.recordLast)
+	}
 	s(rn, newRng(*seed), *tier)
 	rn.finish(*out)
 }
